@@ -51,12 +51,36 @@ def parseJobs : Nat → List String → Option (List (Bytes × Bytes) × List Ch
     pure ((pb, cb) :: js, fc :: fs, r)
   | _, _ => none
 
+/-- pp flag 2: four tokens per job, the fourth is the post-processed content of THAT file
+    (the real backend's PostProcess computed sequentially by the harness) -/
+def parseJobsT : Nat → List String → Option (List (Bytes × Bytes) × List Char × List (Bytes × Bytes × Bytes) × List String)
+  | 0, rest => some ([], [], [], rest)
+  | n + 1, p :: c :: f :: x :: rest => do
+    let pb ← VL.hexDecode p
+    let cb ← VL.hexDecode c
+    let xb ← VL.hexDecode x
+    let fc ← f.toList.head?
+    let (js, fs, tb, r) ← parseJobsT n rest
+    pure ((pb, cb) :: js, fc :: fs, (pb, cb, xb) :: tb, r)
+  | _, _ => none
+
+/-- the post-processing function given as a table: a function of (path, content) of one file alone -/
+def ppfTable (tb : List (Bytes × Bytes × Bytes)) (p c : Bytes) : Bytes :=
+  match tb.find? (fun (p', c', _) => p' == p && c' == c) with
+  | some (_, _, x) => x
+  | none => c
+
 def parseCfg : List String → Option (PCfg × List String)
   | conc :: pp :: n :: rest => do
     let c ← conc.toNat?
     let n ← n.toNat?
-    let (js, fs, r) ← parseJobs n rest
-    pure (mkCfg c (pp == "1") js fs.toArray, r)
+    if pp == "2" then
+      let (js, fs, tb, r) ← parseJobsT n rest
+      let pc := mkCfg c true js fs.toArray
+      pure ({ pc with cfg := { pc.cfg with ppf := ppfTable tb }, key := "T " ++ pc.key }, r)
+    else
+      let (js, fs, r) ← parseJobs n rest
+      pure (mkCfg c (pp == "1") js fs.toArray, r)
   | _ => none
 
 /-- default job list used by gen/explore: path "a/<k>", content "c<k>" -/
